@@ -4,12 +4,12 @@
 # reviewed by hand before the patch was added to selftest/refactors/.)
 # usage: confirm_refactor.sh <patch.diff> [scratch-worktree]
 set -u
-P=$1; WT=${2:-/tmp/wt/confirm}
+P=$1; WT=${2:-/tmp/wt/confirm}; LOG=$(mktemp)
 cd "$WT" || exit 2
 git checkout -q -- . ; git clean -fdq src
 git apply "$P" || { echo "does not apply"; exit 1; }
 ok=true
-cargo build --offline --features cli >/tmp/confirm_rf.log 2>&1 || ok=false
-$ok && { cargo test --offline --workspace >>/tmp/confirm_rf.log 2>&1 || ok=false; }
+cargo build --offline --features cli >$LOG 2>&1 || ok=false
+$ok && { cargo test --offline --workspace >>$LOG 2>&1 || ok=false; }
 git checkout -q -- . ; git clean -fdq src
-$ok && echo "builds+suite ok" || { echo "FAILED"; tail -20 /tmp/confirm_rf.log; exit 1; }
+$ok && echo "builds+suite ok" || { echo "FAILED"; tail -20 $LOG; exit 1; }
